@@ -63,6 +63,9 @@ func (_this *UniversalDecoder) Decode(reader io.Reader, eventReceiver events.Dat
 }
 
 func (_this *UniversalDecoder) DecodeDocument(document []byte, eventReceiver events.DataEventReceiver) error {
+	if len(document) == 0 {
+		return fmt.Errorf("no data")
+	}
 	if decoder, err := chooseDecoder(document[0], _this.config); err == nil {
 		return decoder.DecodeDocument(document, eventReceiver)
 	} else {
